@@ -205,16 +205,23 @@ class ParserModel(object):
         walk(sym_value(self.state_phi.res))
         return out, unknown
 
-    def transitions(self, state, tok):
-        key = (state, tok)
+    def transitions(self, state, tok, seeds=None):
+        """residual paths of one loop iteration.  seeds: {variable or parameter name: int}
+        for loop-carried variables (ignore, num_values) and parameters (level, force_state)"""
+        key = (state, tok, tuple(sorted((seeds or {}).items())))
         if key in self._table:
             return self._table[key]
         fn = self.fn
         env = {}
         for p in fn.params:
-            env[p.name] = ('p', fn.param_names.get(p.name, p.name))
+            nm = fn.param_names.get(p.name, p.name)
+            env[p.name] = ('p', nm)
+            if seeds and nm in seeds:
+                env[p.name] = ('c', seeds[nm])
         for nm, ph in self.phis.items():
             env[ph.res] = ('p', nm)
+            if seeds and nm in seeds:
+                env[ph.res] = ('c', seeds[nm])
         env[self.state_phi.res] = ('c', state)
         paths = self.ex.explore(fn, start=self.header, env=env, stop=[self.header],
                                 call_results={'cfg_yylex': [('c', tok)]},
